@@ -100,7 +100,7 @@ ADD9 = {
  "C04": "Round 9: + id-relation sequences over ids {1,2,3} (rings, values typed by values), dense large modules (up to 1.1M / 2.2M declarations), one Loader used for two parses (every loader state x every opcode); a stack overflow of the checking process is reported by bin/check as a violation.",
  "C05": "Round 9: + function-structure sequences over ids {1,2,3} (declared function types, parameters, same-id functions) to depth 5-7 (thorough 6-9), one Loader fed two streams.",
  "C06": "Round 9: + ext_inst through imports of ten set names x every number 0..210 x three operand lists, built, assembled, loaded and compared.",
- "C09": "Round 9: + repetition (300x / 70 000x the same lookup, then its neighbours); supplementary SAMPLED probe (not exhaustive): 150 / 1500 fresh processes whose first lookups are made by 16 spinning threads.",
+ "C09": "Round 9: + repetition (300x / 70 000x the same lookup, then its neighbours); supplementary SAMPLED probe (not exhaustive): 150 / 1500 fresh processes whose first lookups are made by 16 spinning threads. Round 12: + every declared lookup made from a thread-local destructor while a thread exits, both destruction orders (enumerated, deterministic).",
  "C10": "Round 9: + every extension name of the grammar, every capability, imports and memory models in front of width-sensitive declarations.",
  "C12": "Round 9: + functions with declared result / function types (per-method contexts 8-11), ten names with multi-byte characters / prefixes / mangled forms for name and select_function_by_name, interleaved functions switched by name (by-name selection = selection of the function found).",
  "C13": "Round 9: + the requested type mentioned by eight debug / annotation / entry-point / execution-mode methods before it is requested again.",
